@@ -66,8 +66,66 @@ def env():
         _env['thermo_lle'] = thermo
         assert list(thermo.chemicals._lle_index) == LLE_INDEX
         from thermosteam.equilibrium import lle as lle_mod, binary_phase_fraction as bpf, sle as sle_mod
+        from thermosteam.equilibrium.activity_coefficients import ActivityCoefficients, IdealActivityCoefficients
         _env['lle_mod'] = lle_mod; _env['bpf'] = bpf; _env['sle_mod'] = sle_mod
+        class StubGamma(ActivityCoefficients):
+            """affine stand-in: gamma(x) = a + B x over the chemicals it was created for"""
+            __slots__ = ('f', 'args', 'idx')
+            coef = {'a': [1.] * 5, 'B': [[0.] * 5 for _ in range(5)], 'ids': IDS}
+            def __init__(self, chemicals):
+                self._chemicals = tuple(chemicals)
+                ids = StubGamma.coef['ids']
+                self.idx = idx = [ids.index(c.ID) for c in chemicals]
+                a = np.array([StubGamma.coef['a'][i] for i in idx])
+                B = np.array([[StubGamma.coef['B'][i][j] for j in idx] for i in idx]).reshape(len(idx), len(idx))
+                self.f = gamma_f; self.args = (a, B)
+            def __call__(self, x, T):
+                return gamma_f(np.asarray(x, float), T, *self.args)
+        _env['StubGamma'] = StubGamma
+        _env['thermo_kern'] = tmo.Thermo(chems, Gamma=StubGamma)
+        cs2 = []
+        for n, mw, tm, hf, grp in SLE_CHEMS:
+            c = tmo.Chemical(n, search_db=False, MW=mw, Tm=tm, Hfus=hf, default=True)
+            c.Cn.l.add_model(CPL, top_priority=True); c.Cn.s.add_model(CPS, top_priority=True)
+            if hf is None: c._Hfus = None
+            if grp:
+                c.UNIFAC.set_group_counts_by_name({'CH3': 1}); c.Dortmund.set_group_counts_by_name({'CH3': 1})
+            cs2.append(c)
+        chems2 = tmo.Chemicals(cs2)
+        _env['thermo_sle'] = tmo.Thermo(chems2, Gamma=StubGamma, skip_checks=True)
+        _env['thermo_sle_ideal'] = tmo.Thermo(chems2, Gamma=IdealActivityCoefficients, skip_checks=True)
+        assert list(chems2._lle_index) == SLE_LLE_INDEX
     return _env
+
+def gamma_f(x, T, a, B):
+    return a + B @ x
+
+SLE_IDS = ['P_', 'Q_', 'R_', 'S_']
+SLE_CHEMS = [('P_', 16., 320., 8192., True), ('Q_', 32., 256., 4096., True), ('R_', 8., None, None, True), ('S_', 64., 384., 2048., False)]
+SLE_LLE_INDEX = [0, 1, 2]
+CPL, CPS = 64., 32.
+
+class FakeNp:
+    """numpy with exp/log replaced by affine stand-ins (DESIGN 2.2)"""
+    def __init__(self, ea, eb, la, lb):
+        self.exp = lambda v: ea + eb * np.asarray(v, float)
+        self.log = lambda v: la + lb * np.asarray(v, float)
+    def __getattr__(self, name):
+        return getattr(np, name)
+
+class IterStub:
+    """stands for flexsolve inside lle.py / sle.py: k plain iterations of the map"""
+    def __init__(self, ki=1, ko=1, kf=1, inner=None):
+        self.ki, self.ko, self.kf, self.inner = ki, ko, kf, inner
+    def _it(self, f, x, args, k):
+        for _ in range(k):
+            x = f(x, *args)
+        return x
+    def aitken(self, f, x, *pos, args=(), **kw):
+        if pos and not args and len(pos) >= 2: args = pos[1]
+        return self._it(f, x, args, self.ki if f is self.inner else self.ko)
+    def fixed_point(self, f, x, args=(), **kw):
+        return self._it(f, x, args, self.kf)
 
 def use_thermo(name):
     e = env()
@@ -95,9 +153,11 @@ def gen_fr(rng):
     r = rng.random()
     if r < 0.08: return [0.] * 5
     if r < 0.16: return [1.] * 5
-    fr = [rng.choice(FRS) for _ in range(5)]
-    if rng.random() < 0.06:
-        fr[rng.randrange(5)] = rng.choice([1.25, -0.25])
+    # pairwise distinct fractions: equal fractions give two liquids of identical composition, where the top-chemical
+    # comparison C_L < C_l is an exact tie that float rounding decides
+    fr = rng.sample([0., 0.25, 0.5, 0.75, 1., 0.125, 0.875, 2.0 ** -6], 5)
+    # (fractions outside [0, 1] -- a solver answer outside the bounds it was given -- make sums such as F_mol_l cancel to
+    #  exactly 0 in exact arithmetic and to 1e-17 in floats; they are outside the solver contract and are not generated)
     return fr
 
 def gen_rr(rng):
@@ -197,14 +257,108 @@ def gen_lle_case(rng):
         case['ops'].append(gen_call(rng, T))
     return case
 
+DY = [0.5, 1., 1.5, 2., 0.25, 0.75, 3., 0.125]
+
+def gen_gamma(rng, n=5):
+    a = [rng.choice([1., 0.5, 2., 1.5]) for _ in range(n)]
+    B = [[rng.choice([0., 0.5, 1., 2., 0.25, 4.]) for _ in range(n)] for _ in range(n)]
+    return a, B
+
+def gen_std(rng):
+    return [rng.choice([1., 0.5, 0.]), rng.choice([1., 0.5, 2.]), rng.choice([0., -1., 0.5]), rng.choice([1., 0.5, 2.])]
+
+def gen_z(rng, n):
+    cuts = sorted(rng.sample(range(1, 16), n - 1))
+    return [(b - a) / 16. for a, b in zip([0] + cuts, cuts + [16])]
+
+def gen_inner_case(rng):
+    n = rng.choice([2, 2, 3, 4])
+    a, B = gen_gamma(rng, n)
+    v = [rng.choice([0., 0.5, 1., -0.5, 2., -1.]) for _ in range(n)] + [rng.choice([1., 2., 0.5, 1.5, 4.]) for _ in range(n)]
+    z = gen_z(rng, n)
+    phi = rng.choice([0.5, 0.25, 0.75, 0., 1., 0.125])
+    r = rng.random()
+    if r < 0.06: z = z + [0.25]                      # shape mismatch
+    elif r < 0.12: v[n + rng.randrange(n)] = 0.      # zero gamma_y
+    elif r < 0.16: v = v + [1.]                      # longer gamma block
+    return {'kind': 'inner', 'n': n, 'v': v, 'z': z, 'phi': phi, 'ga': a, 'gB': B, 'std': gen_std(rng)}
+
+def gen_solve_case(rng):
+    n = rng.choice([2, 2, 3, 4])
+    a, B = gen_gamma(rng, 5)
+    while True:
+        z = gen_z(rng, n)
+        idx = LLE_INDEX[:n]
+        masses = [z[k] * MW[idx[k]] for k in range(n)]
+        if len(set(masses)) == n: break
+    method = rng.choice(['pseudo equilibrium'] * 5 + ['shgo', 'shgo', 'differential evolution', 'bogus'])
+    K0 = phi0 = None
+    if rng.random() < 0.5:
+        K0 = [rng.choice([0.5, 2., 4., 0.25, 1., 8., 0.125]) for _ in range(n)]
+        phi0 = rng.choice([0.5, 0.25, 0.75, 0., 1., None]) if rng.random() < 0.9 else None
+    ki, ko, kf = rng.choice([0, 1, 1, 2]), rng.choice([0, 1, 1, 2]), rng.choice([0, 1, 2])
+    if K0 is None or phi0 is None or not 0 < phi0 < 1:
+        # default initial guess (0.99 / 1e-3 doubles): exact rationals get very large under iteration; the loops are
+        # exercised from dyadic K0 instead
+        ki, kf = 0, 0
+    return {'kind': 'solve', 'n': n, 'z': z, 'method': method, 'K0': K0, 'phi0': phi0, 'single': rng.random() < 0.3,
+            'ga': a, 'gB': B, 'std': gen_std(rng), 'ki': ki, 'ko': ko,
+            'kf': kf, 'rr': gen_rr(rng),
+            'shgo': [rng.random() < 0.7, [rng.choice([0., 0.25, 0.5, 1.]) * x for x in z] if rng.random() < 0.8 else [0.] * n],
+            'de': [rng.choice([0., 0.25, 0.5]) * x for x in z]}
+
+def gen_sle_case(rng):
+    ideal = rng.random() < 0.35
+    a, B = gen_gamma(rng, 4)
+    def flows():
+        present = sorted(rng.sample(range(4), rng.choice([1, 2, 2, 3, 4])))
+        l, s = [0.] * 4, [0.] * 4
+        for i in present:
+            x = rng.choice(DY + [5., 10.])
+            k = rng.choice([0, 1, 2, 4, 4])
+            l[i] = x * k / 4.; s[i] = x - x * k / 4.
+        return l, s
+    l, s = flows()
+    ops = []
+    for _ in range(rng.randint(1, 4)):
+        r = rng.random()
+        if r < 0.25 and ops:
+            nl, ns = flows(); ops.append(['set', nl, ns])
+        elif r < 0.3 and ops:
+            ops.append(['reset'])
+        sol = rng.choice([None, None, None, 0.0625, 0.5, -0.125, 1., 0.25])
+        solute = rng.choice(['P_', 'P_', 'Q_', 'S_', 'R_', 'Zz'])
+        T = rng.choice([300., 330., 250., 320., 256., 450., None])
+        ops.append(['call', {'solute': solute, 'T': T, 'H': rng.choice([None] * 9 + [0.]) if T is not None else rng.choice([None, 0.]),
+                             'P': rng.choice([None, None, 202650.]), 'sol': sol,
+                             'e': [rng.choice([0.0625, 0.25, -0.125, 0.5, 1.5]), rng.choice([0., 0.125, -0.0625]),
+                                   rng.choice([0., 2.0 ** -8, -2.0 ** -9]), rng.choice([0., 2.0 ** -14])],
+                             'k': rng.choice([0, 1, 1, 2])}])
+    if rng.random() < 0.2:
+        # a pure-solute call first, then a mixture on the same stream (the solver object is kept by the stream)
+        l, s = [0.] * 4, [0.] * 4
+        j = rng.choice([0, 1]); l[j] = rng.choice([1., 2., 0.5])
+        nl, ns = [rng.choice([0.5, 1., 3.]) for _ in range(3)] + [0.], [0.] * 4
+        ops = [['call', {'solute': SLE_IDS[j], 'T': rng.choice([300., 250., 330.]), 'H': None, 'P': None, 'sol': None,
+                         'e': [0.25, 0., 0., 0.], 'k': 1}], ['set', nl, ns]] + ops
+    # T None with H given is the unmodelled path: drop those calls
+    ops = [o for o in ops if not (o[0] == 'call' and o[1]['T'] is None and o[1]['H'] is not None)]
+    if not any(o[0] == 'call' for o in ops):
+        ops.append(['call', {'solute': 'P_', 'T': 300., 'H': None, 'P': None, 'sol': None, 'e': [0.25, 0., 0., 0.], 'k': 1}])
+    return {'kind': 'sle', 'ideal': ideal, 'act': rng.choice([None, None, 2., 0.5]), 'l': l, 's': s, 'ga': a, 'gB': B, 'ops': ops}
+
 def gen_cases(rng, tier):
-    n = 220 if tier == 'quick' else 3000
+    n = 150 if tier == 'quick' else 2500
     cases = []
     while len(cases) < n:
         c = gen_lle_case(rng)
         if exact_boundary(c):
             continue
         cases.append(c)
+    m = 60 if tier == 'quick' else 800
+    cases += [gen_inner_case(rng) for _ in range(m)]
+    cases += [gen_solve_case(rng) for _ in range(m)]
+    cases += [gen_sle_case(rng) for _ in range(m + m // 2)]
     return cases
 
 # ------------------------------------------------------------------ implementation side: LLE wrapper with stubbed solvers
@@ -283,10 +437,104 @@ def run_lle(case):
         lle_mod.LLE.solve_lle_liquid_mol = real_solver; bpf.flx = real_flx
     return {'obs': obs}
 
+def res_vec(fn):
+    try:
+        return ['ok', fl(fn())]
+    except Exception as ex:
+        return ['err', EXC.get(type(ex).__name__, 'EOther'), type(ex).__name__]
+
+def run_inner(case):
+    e = use_thermo('thermo_kern'); lle_mod = e['lle_mod']
+    a = np.array(case['ga']); B = np.array(case['gB'])
+    real_np = lle_mod.np
+    lle_mod.np = FakeNp(*case['std'])
+    try:
+        f = lle_mod.psuedo_equilibrium_inner_loop.py_func
+        return {'r': res_vec(lambda: f(np.array(case['v']), np.array(case['z']), 300., case['n'], gamma_f, (a, B), case['phi']))}
+    finally:
+        lle_mod.np = real_np
+
+def run_solve(case):
+    e = use_thermo('thermo_kern'); tmo = e['tmo']; lle_mod = e['lle_mod']; bpf = e['bpf']
+    n = case['n']; idx = LLE_INDEX[:n]
+    e['StubGamma'].coef = {'a': case['ga'], 'B': case['gB'], 'ids': IDS}
+    s = tmo.MultiStream(None, T=298.15, P=101325., phases='lLg')
+    lle = s.lle
+    lle.method = case['method']
+    lle._K = None if case['K0'] is None else np.array(case['K0'])
+    lle._phi = case['phi0']
+    chems = [tmo.settings.chemicals.tuple[i] for i in idx]
+    seen = {}
+    class Res:
+        def __init__(self, ok, x): self.success = ok; self.x = np.array(x)
+    def shgo(f, bounds, args, options=None):
+        seen['ub_shgo'] = fl(bounds[:, 1]); assert (bounds[:, 0] == 0).all()
+        return Res(*case['shgo'])
+    def de(f, bounds, args, **kw):
+        seen['ub_de'] = fl(bounds[:, 1]); assert (bounds[:, 0] == 0).all()
+        return Res(True, case['de'])
+    saved = (lle_mod.np, lle_mod.flx, lle_mod.psuedo_equilibrium_inner_loop, lle_mod.shgo, lle_mod.differential_evolution, bpf.flx)
+    inner = lle_mod.psuedo_equilibrium_inner_loop.py_func
+    stub = FlxStub(); stub.rr = case['rr']
+    lle_mod.np = FakeNp(*case['std']); lle_mod.flx = IterStub(case['ki'], case['ko'], case['kf'], inner)
+    lle_mod.psuedo_equilibrium_inner_loop = inner; lle_mod.shgo = shgo; lle_mod.differential_evolution = de; bpf.flx = stub
+    try:
+        r = res_vec(lambda: lle.solve_lle_liquid_mol(np.array(case['z']), 300., chems, case['single']))
+    finally:
+        (lle_mod.np, lle_mod.flx, lle_mod.psuedo_equilibrium_inner_loop, lle_mod.shgo, lle_mod.differential_evolution, bpf.flx) = saved
+    return {'r': r, 'seen': seen}
+
+def sle_snapshot(s, sle):
+    ix = sle._index
+    return {'l': fl(s.imol['l'].to_array()), 's': fl(s.imol['s'].to_array()), 'T': fr_json(frac(s.T)), 'P': fr_json(frac(s.P)),
+            'index': 'all' if isinstance(ix, slice) else [int(i) for i in ix],
+            'chemical': None if sle._chemical is None else SLE_IDS.index(sle._chemical.ID),
+            'nonzero': None if sle._nonzero is None else sorted(int(i) for i in sle._nonzero)}
+
+def run_sle(case):
+    e = use_thermo('thermo_sle_ideal' if case['ideal'] else 'thermo_sle'); tmo = e['tmo']; sle_mod = e['sle_mod']
+    e['StubGamma'].coef = {'a': case['ga'], 'B': case['gB'], 'ids': SLE_IDS}
+    s = tmo.MultiStream(None, T=298.15, P=101325., phases='ls')
+    s.imol['l'] = np.array(case['l']); s.imol['s'] = np.array(case['s'])
+    cur = {}
+    def eut(T, Tm, Hm, Cpl, Cps, g):
+        c = cur['e']
+        return c[0] + c[1] * g + c[2] * (T - Tm) + c[3] * (Hm + Cpl - Cps)
+    saved = (sle_mod.solubility_eutectic, sle_mod.flx)
+    sle_mod.solubility_eutectic = eut
+    obs = []
+    try:
+        if case['act'] is not None: s.sle.activity_coefficient = case['act']
+        for op in case['ops']:
+            ret = None
+            if op[0] == 'set':
+                s.imol['l'] = np.array(op[1]); s.imol['s'] = np.array(op[2])
+            elif op[0] == 'reset':
+                s.reset_cache()
+                if case['act'] is not None: s.sle.activity_coefficient = case['act']
+            else:
+                a = op[1]; cur['e'] = a['e']
+                sle_mod.flx = IterStub(ko=a['k'])
+                same = s.sle is s.sle
+                try:
+                    r = s.sle(a['solute'], T=a['T'], P=a['P'], H=a['H'], solubility=a['sol'])
+                    ret = ['ok', same and r is None]
+                except Exception as ex:
+                    ret = ['err', EXC.get(type(ex).__name__, 'EOther'), type(ex).__name__]
+            o = sle_snapshot(s, s.sle); o['ret'] = ret
+            obs.append(o)
+    finally:
+        sle_mod.solubility_eutectic, sle_mod.flx = saved
+    return {'obs': obs}
+
 def run_impl(case):
-    if case['kind'] == 'lle':
-        return run_lle(case)
-    raise ValueError(case['kind'])
+    k = case['kind']
+    if k == 'lle': return run_lle(case)
+    if k == 'inner': return run_inner(case)
+    if k == 'solve': return run_solve(case)
+    if k == 'sle': return run_sle(case)
+    if k == 'real': return {'msg': oracle(case)}
+    raise ValueError(k)
 
 # ------------------------------------------------------------------ model side
 def qs(s):
@@ -364,15 +612,104 @@ def coq_lle(case, out):
     i = case['init']
     st = f'(st_init {c_tol(case["tolT"], DEF_TOLT)} {c_tol(case["tolz"], DEF_TOLZ)})'
     s0 = f'(mkstrm {qlist(i["l"])} {qlist(i["L"])} {qlist(i["g"])} {q(298.15)} {q(101325.)})'
-    ops = clist([c_lop(op) for op in case['ops']])
-    exp = clist([c_obs(op, o) for op, o in zip(case['ops'], out['obs'])])
+    # float boundary: a cached call whose phase fraction is exactly 0 or 1 in exact arithmetic but 1e-16 off in floats leaves
+    # a phase holding ~1e-16 of the feed (stored phi within 1e-12 of 0/1 but not equal); the history is compared up to that call
+    n_ops = len(case['ops'])
+    for k, o in enumerate(out['obs']):
+        if o['trace'] is not None and o['trace'].get('used') and o['phi'] is not None:
+            ph = F(o['phi'])
+            if 0 < ph < F(1, 10 ** 12) or 1 - F(1, 10 ** 12) < ph < 1:
+                n_ops = k; out['float_boundary'] = True
+                break
+    ops = clist([c_lop(op) for op in case['ops'][:n_ops]])
+    exp = clist([c_obs(op, o) for op, o in zip(case['ops'][:n_ops], out['obs'][:n_ops])])
     same = all(o['trace'] is None or o['trace']['same_obj'] for o in out['obs'])
     return f'(lrun_check {ENV} ({st}, {s0}) {ops} {exp} && {cbool(same)})'
 
+def c_std(std):
+    ea, eb, la, lb = std
+    return f'(fun x_ => {q(ea)} + {q(eb)} * x_) (fun x_ => {q(la)} + {q(lb)} * x_)'
+
+def c_gamma(a, B, idx=None):
+    if idx is not None:
+        a = [a[i] for i in idx]; B = [[B[i][j] for j in idx] for i in idx]
+    return f'(gamma_aff {qlist(a)} {clist([qlist(r) for r in B])})'
+
+def c_resvec(r):
+    return f'(Ok {qv(r[1])})' if r[0] == 'ok' else f'(Err {r[1]})'
+
+def coq_inner(case, out):
+    return (f'(rv_eqb (inner_loop {c_std(case["std"])} {c_gamma(case["ga"], case["gB"])} {qlist(case["v"])} {qlist(case["z"])} '
+            f'{cnat(case["n"])} {q(case["phi"])}) {c_resvec(out["r"])})')
+
+METHODS = {'pseudo equilibrium': 'MPseudo', 'shgo': 'MShgo', 'differential evolution': 'MDE'}
+
+def coq_solve(case, out):
+    n = case['n']; idx = LLE_INDEX[:n]
+    std = case['std']
+    fe = f'(fun x_ => {q(std[0])} + {q(std[1])} * x_)'; fln = f'(fun x_ => {q(std[2])} + {q(std[3])} * x_)'
+    seen = out['seen']
+    def guard(key, val):
+        # the optimiser stub answers only if it was handed the bounds the implementation handed to its stub
+        if key in seen:
+            return f'(fun ub_ => if vapproxb ub_ {qv(seen[key])} then {val} else BAD)'
+        return f'(fun ub_ => BAD)'
+    shgo = guard('ub_shgo', f'({cbool(case["shgo"][0])}, {qlist(case["shgo"][1])})').replace('BAD', '(false, [(-1)])')
+    de = guard('ub_de', qlist(case['de'])).replace('BAD', '[(-1)]')
+    rr = case['rr']
+    o = (f'(mksorc {fe} {fln} {c_gamma(case["ga"], case["gB"], idx)} (iter_res {cnat(case["ki"])}) (iter_res {cnat(case["ko"])}) '
+         f'(iter_res {cnat(case["kf"])}) (mkrr {q(rr[0])} {q(rr[1])} {q(rr[2])}) {shgo} {de})')
+    return (f'(rv_eqb (solve_lle {o} {METHODS.get(case["method"], "MOther")} {qlist([MW[i] for i in idx])} {copt(case["K0"], qlist)} '
+            f'{copt(case["phi0"], q)} {qlist(case["z"])} {cbool(case["single"])}) {c_resvec(out["r"])})')
+
+SENV_FMT = ('(mksenv {idx} {tm} {hf} {cpl} {cps} {ideal})')
+def c_senv(ideal):
+    tm = clist([copt(c[2], q) for c in SLE_CHEMS]); hf = clist([copt(c[3], q) for c in SLE_CHEMS])
+    return SENV_FMT.format(idx=nlist(SLE_LLE_INDEX), tm=tm, hf=hf, cpl=qlist([CPL] * 4), cps=qlist([CPS] * 4), ideal=cbool(ideal))
+
+def c_sop(case, op):
+    if op[0] == 'set': return f'(SSetFlow {qlist(op[1])} {qlist(op[2])})'
+    if op[0] == 'reset': return f'(SReset {copt(case["act"], q)})'
+    a = op[1]
+    solute = SLE_IDS.index(a['solute']) if a['solute'] in SLE_IDS else None
+    P = a['P'] if a['P'] else None
+    e = a['e']
+    eut = (f'(fun u_ => {q(e[0])} + {q(e[1])} * u_gamma u_ + {q(e[2])} * (u_T u_ - u_Tm u_) + {q(e[3])} * (u_Hm u_ + u_Cpl u_ - u_Cps u_))')
+    ait = f'(iter_ls {cnat(a["k"])})'
+    # gamma over the chemicals of the solver's index is resolved inside the model through e_index: pass the full matrices
+    return (f'(SCall (mksargs {copt(solute, cnat)} {copt(a["T"], q)} {cbool(a["H"] is not None)} {copt(P, q)} {copt(a["sol"], q)}) '
+            f'(mkeorc {eut} GAMMA {ait}))')
+
+def c_sobs(o):
+    ix = 'SAll' if o['index'] == 'all' else f'(SList {nlist(o["index"])})'
+    ret = 'None' if o['ret'] is None else ('(Some (Ok tt))' if o['ret'][0] == 'ok' else f'(Some (Err {o["ret"][1]}))')
+    return (f'(mksobs {qv(o["l"])} {qv(o["s"])} {qs(o["T"])} {qs(o["P"])} {ix} {copt(o["chemical"], cnat)} {copt(o["nonzero"], nlist)} {ret})')
+
+def coq_sle(case, out):
+    # the stub Gamma object is built for the chemicals of _index at _setup time; the model applies oe_gamma to
+    # liquid_mol[_index]; the affine stand-in restricted to that index is selected from the observed _index/_nonzero
+    ops = []
+    for op, o in zip(case['ops'], out['obs']):
+        t = c_sop(case, op)
+        if op[0] == 'call':
+            nz = o['nonzero']
+            gidx = [i for i in SLE_LLE_INDEX if nz is not None and i in nz]
+            g = c_gamma(case['ga'], case['gB'], gidx)
+            t = t.replace('GAMMA', f'(fun x_ => if Nat.eqb (length x_) {cnat(len(gidx))} then Ok ({g} x_) else Err EValue)')
+        ops.append(t)
+    ok = all(o['ret'] is None or o['ret'][0] != 'ok' or o['ret'][1] for o in out['obs'])
+    s0 = f'(mksstrm {qlist(case["l"])} {qlist(case["s"])} {q(298.15)} {q(101325.)})'
+    return (f'(srun_check {c_senv(case["ideal"])} (sst_init {copt(case["act"], q)}, {s0}) {clist(ops)} '
+            f'{clist([c_sobs(o) for o in out["obs"]])} && {cbool(ok)})')
+
 def coq_case(case, out):
-    if case['kind'] == 'lle':
-        return coq_lle(case, out)
-    raise ValueError(case['kind'])
+    k = case['kind']
+    if k == 'lle': return coq_lle(case, out)
+    if k == 'inner': return coq_inner(case, out)
+    if k == 'solve': return coq_solve(case, out)
+    if k == 'sle': return coq_sle(case, out)
+    if k == 'real': return cbool(out['msg'] is None)
+    raise ValueError(k)
 
 def coq_show(case, out):
     if case['kind'] == 'lle':
@@ -380,15 +717,23 @@ def coq_show(case, out):
         st = f'(st_init {c_tol(case["tolT"], DEF_TOLT)} {c_tol(case["tolz"], DEF_TOLZ)})'
         s0 = f'(mkstrm {qlist(i["l"])} {qlist(i["L"])} {qlist(i["g"])} {q(298.15)} {q(101325.)})'
         return f'(lrun {ENV} ({st}, {s0}) {clist([c_lop(op) for op in case["ops"]])})'
+    if case['kind'] in ('inner', 'solve'):
+        t = coq_case(case, out)
+        return t[len('(rv_eqb '):t.rindex(' (Ok') if ' (Ok' in t else t.rindex(' (Err')]
     return 'tt'
 
 def nontrivial(case, out):
     if case['kind'] == 'lle':
         return any(o['trace'] is not None and o['chems'] is not None for o in out.get('obs', []))
+    if case['kind'] in ('inner', 'solve'):
+        return out['r'][0] == 'ok'
+    if case['kind'] == 'sle':
+        return any(o['ret'] is not None and o['ret'][0] == 'ok' for o in out.get('obs', []))
     return True
 
 def classify(case, out):
     ks = ['kind:' + case['kind']]
+    if out.get('float_boundary'): ks.append('lle:history-cut-at-float-boundary')
     if case['kind'] == 'lle':
         for op, o in zip(case['ops'], out.get('obs', [])):
             if op[0] != 'call':
@@ -397,7 +742,228 @@ def classify(case, out):
             ks.append('call:' + ('cached' if tr.get('used') else ('solved' if tr['sin'] else 'no-split')))
             ks.append('ret:' + tr['ret'][0] + (':' + tr['ret'][2] if tr['ret'][0] == 'err' else ''))
             if op[1]['top']: ks.append('top:' + ('lle' if op[1]['top'] in ('A_', 'B_', 'C_', 'E_') else 'other'))
+    elif case['kind'] in ('inner', 'solve'):
+        r = out['r']
+        ks.append(case['kind'] + ':' + (r[0] if r[0] == 'ok' else r[2]))
+        if case['kind'] == 'solve': ks.append('method:' + case['method'] + (':single' if case['single'] else ''))
+    elif case['kind'] == 'sle':
+        for op, o in zip(case['ops'], out.get('obs', [])):
+            if op[0] != 'call': ks.append('sle-op:' + op[0]); continue
+            ks.append('sle-call:' + ('given' if op[1]['sol'] is not None else 'computed') + ':' + (o['ret'][0] if o['ret'][0] == 'ok' else o['ret'][2]))
+            if o['ret'][0] == 'ok' and o['chemical'] is not None: ks.append('sle:pure-branch')
     return ks
 
-def oracle(case):
+# ------------------------------------------------------------------ direct oracle: the property itself on the real objects
+def _rows(s, ids):
+    return np.array(s.imol['l', ids], float), np.array(s.imol['L', ids], float)
+
+def real_history(case, use_cache, scale=1.0):
+    e = env(); tmo = e['tmo']
+    tmo.settings.set_thermo(case['chems'], cache=True)
+    s = tmo.MultiStream(None, T=298.15, P=101325., phases='lLg')
+    s.lle.method = case['method']
+    for T, flows in case['calls']:
+        s.imol['L'] = 0.
+        for k, v in flows.items(): s.imol['l', k] = v * scale
+        s.lle(T=T, top_chemical=case.get('top'), use_cache=use_cache)
+    return s
+
+def oracle_real(case):
+    e = env(); tmo = e['tmo']
+    ids = case['chems']
+    s = real_history(case, True)
+    l, L = _rows(s, ids)
+    tot = l.sum() + L.sum()
+    T = case['calls'][-1][0]
+    two = l.sum() > 1e-9 * tot and L.sum() > 1e-9 * tot
+    # (3) with the cache vs without (up to the exchange of the two labels when no top chemical is named)
+    s2 = real_history(case, False)
+    l2, L2 = _rows(s2, ids)
+    d = min(np.abs(l - l2).max() + np.abs(L - L2).max(), np.abs(l - L2).max() + np.abs(L - l2).max())
+    if d > 1e-2 * tot:
+        return (f'reusing remembered partition coefficients changes the split (history T={[c[0] for c in case["calls"]]}, '
+                f'{case["method"]}): with cache l={np.round(l, 4).tolist()} L={np.round(L, 4).tolist()}, '
+                f'without l={np.round(l2, 4).tolist()} L={np.round(L2, 4).tolist()}')
+    # (1) equal activities in the two liquids
+    if two and case.get('check_activity', True):
+        gamma = tmo.settings.get_thermo().Gamma([tmo.settings.chemicals[i] for i in ids])
+        xl, xL = l / l.sum(), L / L.sum()
+        al, aL = xl * gamma(xl, T), xL * gamma(xL, T)
+        rel = np.abs(al - aL) / np.maximum(np.maximum(al, aL), 1e-12)
+        if rel.max() > 0.02:
+            return (f'activities differ between the two liquids after LLE ({case["method"]}) at T={T}: '
+                    f'l {np.round(al, 4).tolist()} vs L {np.round(aL, 4).tolist()}')
+    # (2) top chemical labelling
+    top = case.get('top')
+    if top and top in ids and two:
+        mw = np.array([tmo.settings.chemicals[i].MW for i in ids]); k = ids.index(top)
+        CL, Cl = (L * mw)[k] / (L * mw).sum(), (l * mw)[k] / (l * mw).sum()
+        if CL < Cl - 1e-12: return f'top chemical {top}: mass fraction in L {CL:.6g} < in l {Cl:.6g}'
+    # (4) proportional to the feed
+    k = case.get('scale', 8.0)
+    s3 = real_history(case, True, scale=k)
+    l3, L3 = _rows(s3, ids)
+    d = min(np.abs(l * k - l3).max() + np.abs(L * k - L3).max(), np.abs(l * k - L3).max() + np.abs(L * k - l3).max())
+    if d > 1e-2 * tot * k:
+        return f'flows not proportional to the feed under scaling by {k}: {np.round(l3 / k, 4).tolist()} vs {np.round(l, 4).tolist()}'
     return None
+
+def oracle_sle_real(case):
+    e = env(); tmo = e['tmo']
+    tmo.settings.set_thermo(case['chems'], cache=True)
+    s = tmo.MultiStream(None, T=298.15, P=101325., phases='ls')
+    for k, v in case['l'].items(): s.imol['l', k] = v
+    for k, v in case['s'].items(): s.imol['s', k] = v
+    ids = case['chems']; sol = case['solute']; j = ids.index(sol)
+    bl, bs = np.array(s.imol['l', ids], float), np.array(s.imol['s', ids], float)
+    before = bl + bs
+    s.sle(sol, T=case['T'], solubility=case.get('sol'))
+    l, sd = np.array(s.imol['l', ids], float), np.array(s.imol['s', ids], float)
+    for i in range(len(ids)):
+        if i != j and (l[i] != bl[i] or sd[i] != bs[i]): return f'SLE moved {ids[i]} although the solute is {sol}'
+    if abs(l[j] + sd[j] - before[j]) > 1e-9 * max(1, before[j]): return 'SLE does not conserve the solute'
+    if l[j] < -1e-12 or l[j] > before[j] * (1 + 1e-12): return f'SLE dissolves {l[j]} of {before[j]} present'
+    nz = [i for i in range(len(ids)) if before[i] != 0]
+    if len(nz) == 1:
+        Tm = tmo.settings.chemicals[sol].Tm
+        if case['T'] > Tm and sd[j] != 0: return 'pure solute above Tm is not entirely liquid'
+        if case['T'] <= Tm and l[j] != 0: return 'pure solute at or below Tm is not entirely solid'
+    elif case.get('sol') is not None and case['sol'] >= 0:
+        x = l[j] / l.sum()
+        if x > case['sol'] * (1 + 1e-9) + 1e-12: return f'liquid mole fraction {x} exceeds the given solubility {case["sol"]}'
+    return None
+
+def oracle_sle_hist(case):
+    """a solute/solvent call made after an earlier call on the same stream must give what a new stream gives"""
+    e = env(); tmo = e['tmo']
+    tmo.settings.set_thermo(case['chems'], cache=True)
+    ids = case['chems']
+    def load(s, l, sd):
+        s.imol['l'] = 0.; s.imol['s'] = 0.
+        for k, v in l.items(): s.imol['l', k] = v
+        for k, v in sd.items(): s.imol['s', k] = v
+    s = tmo.MultiStream(None, T=298.15, P=101325., phases='ls')
+    for step in case['steps']:
+        load(s, step['l'], step['s']); s.sle(step['solute'], T=step['T'])
+    last = case['steps'][-1]
+    f = tmo.MultiStream(None, T=298.15, P=101325., phases='ls')
+    load(f, last['l'], last['s']); f.sle(last['solute'], T=last['T'])
+    a = np.array(s.imol['l', ids], float); b = np.array(f.imol['l', ids], float)
+    if np.abs(a - b).max() > 1e-6 * max(1., np.abs(b).max()):
+        return (f'sle-history: after {[(st["solute"], st["T"]) for st in case["steps"][:-1]]} the call {last["solute"]}, T={last["T"]} '
+                f'dissolves {np.round(a, 5).tolist()} but a new stream dissolves {np.round(b, 5).tolist()}')
+    return None
+
+def oracle_sle_stub(case):
+    """stub histories: whenever a call succeeds on a mixture with two or more LLE chemicals present, the amount dissolved must
+    respect the solubility computed in that call (the pure-solute rule of an earlier call must not be applied)"""
+    out = run_sle(case)
+    l, sd = case['l'], case['s']
+    for op, o in zip(case['ops'], out['obs']):
+        if op[0] == 'set': l, sd = op[1], op[2]
+        elif op[0] == 'call' and o['ret'][0] == 'ok' and op[1]['sol'] is None:
+            tot = [F(x) + F(y) for x, y in zip(l, sd)]
+            n_lle = len([i for i in SLE_LLE_INDEX if tot[i] != 0])
+            if n_lle != 1 and o['chemical'] is not None:
+                return (f'sle-history: {op[1]["solute"]} at T={op[1]["T"]} with {n_lle} chemicals in equilibrium was treated as the pure '
+                        f'solute {SLE_IDS[o["chemical"]]} of an earlier call')
+        l, sd = [F(x) for x in o['l']], [F(x) for x in o['s']]
+    return None
+
+def oracle_lle_stub(case):
+    """use_cache_sound evaluated on the implementation (stubbed solver): a call that did not consult the solver must be
+    within the tolerances of the previous call's T and z; top-chemical labelling of what was written."""
+    out = run_lle(case)
+    tolT = case['tolT']; tolz = case['tolz']
+    prev = None
+    l, L = case['init']['l'], case['init']['L']
+    for op, o in zip(case['ops'], out['obs']):
+        if op[0] == 'set':
+            l, L = op[1], op[2]
+        elif op[0] == 'reset':
+            prev = None; tolT, tolz = op[1], op[2]
+        else:
+            a = op[1]
+            tot = [F(x) + F(y) for x, y in zip(l, L)]
+            idx = [i for i in LLE_INDEX if tot[i] != 0]
+            Fm = sum(tot[i] for i in idx)
+            if Fm != 0 and len(idx) > 1:
+                z = [tot[i] / Fm for i in idx]
+                solved = o['trace']['sin'] is not None
+                if not solved:
+                    tT = F(1e-3) if tolT is None else F(tolT); tz = F(1e-5) if tolz is None else F(tolz)
+                    if prev is None or prev[0] != idx:
+                        return 'cached partition coefficients reused for other chemicals'
+                    if abs(F(a['T']) - prev[1]) >= tT:
+                        return (f'cache: call at T={a["T"]} reused the partition coefficients remembered at T={float(prev[1])} '
+                                f'(tolerance {float(tT)})')
+                    if any(abs(x - y) >= tz for x, y in zip(z, prev[2])):
+                        return (f'cache: call at z={[float(x) for x in z]} reused the partition coefficients remembered at '
+                                f'z={[float(x) for x in prev[2]]} (tolerance {float(tz)})')
+                if o['trace']['ret'][0] != 'err':
+                    prev = (idx, F(a['T']), z)
+                    top = a['top']
+                    if a['update'] and top in IDS and IDS.index(top) in idx:
+                        ml = [F(x) * F(MW[i]) for i, x in enumerate(o['l'])]; mL = [F(x) * F(MW[i]) for i, x in enumerate(o['L'])]
+                        sl = sum(ml[i] for i in idx); sL = sum(mL[i] for i in idx); k = IDS.index(top)
+                        if sl != 0 and sL != 0 and mL[k] / sL < ml[k] / sl * (1 - F(1, 10 ** 9)):
+                            return f'top chemical {top}: mass fraction in L below that in l'
+                        if sL == 0 and sl != 0:
+                            return f'top chemical {top}: the single liquid is labelled l'
+            l, L = o['l'], o['L']
+    return None
+
+def oracle(case):
+    k = case['kind']
+    if k == 'real': return oracle_real(case)
+    if k == 'sle_real': return oracle_sle_real(case)
+    if k == 'lle': return oracle_lle_stub(case)
+    if k == 'sle_hist_real': return oracle_sle_hist(case)
+    if k == 'sle': return oracle_sle_stub(case)
+    return None
+
+def finding_key(case, msg):
+    if msg.startswith('activities differ') and 'pseudo equilibrium' in msg: return 'lle_inner_loop_logK'
+    if msg.startswith('cache:') or msg.startswith('reusing remembered'): return 'lle_use_cache_signed_difference'
+    if msg.startswith('sle-history'): return 'sle_stale_pure_chemical'
+    return 'C15:' + msg.split(':')[0][:40].replace(' ', '_')
+
+WOE = ['Water', 'Octanol', 'Ethanol']
+WITNESSES = [
+    {'key': 'lle_inner_loop_logK',
+     'case': {'kind': 'real', 'chems': WOE, 'method': 'pseudo equilibrium', 'top': 'Octanol',
+              'calls': [[300., {'Water': 30., 'Octanol': 10., 'Ethanol': 3.}]]}},
+]
+# Coq-side witness of C15_lle_fix_equal_activity_refuted, run through the implementation's inner loop on every run
+CORPUS = [
+    {'kind': 'sle', 'ideal': True, 'act': None, 'l': [1., 0., 0., 0.], 's': [0., 0., 0., 0.], 'ga': [1.] * 4, 'gB': [[0.] * 4] * 4,
+     'ops': [['call', {'solute': 'P_', 'T': 300., 'H': None, 'P': None, 'sol': None, 'e': [0.25, 0., 0., 0.], 'k': 1}],
+             ['set', [1., 0., 3., 0.], [0., 0., 0., 0.]],
+             ['call', {'solute': 'P_', 'T': 330., 'H': None, 'P': None, 'sol': None, 'e': [0.125, 0., 0., 0.], 'k': 1}]]},
+    {'kind': 'inner', 'n': 2, 'v': [2., -0.5, 1., 3.], 'z': [0.4, 0.6], 'phi': 0.5, 'ga': [0., 0.], 'gB': [[0., 4.], [4., 0.]],
+     'std': [1., 1., -1., 1.]},
+]
+
+def search_cases(rng, tier):
+    """real solvers on database chemicals: histories with a colder / hotter / richer second call, with and without the cache"""
+    cases = []
+    systems = [(WOE, {'Water': 30., 'Octanol': 10., 'Ethanol': 3.}), (['Water', 'Butanol', 'Hexane'], {'Water': 20., 'Butanol': 4., 'Hexane': 10.}),
+               (['Water', 'EthylAcetate', 'Ethanol'], {'Water': 20., 'EthylAcetate': 12., 'Ethanol': 2.})]
+    n = 6 if tier == 'quick' else 40
+    for _ in range(n):
+        chems, base = rng.choice(systems)
+        T0 = rng.choice([300., 320., 340., 355.])
+        dT = rng.choice([-25., -15., 15., -40.])
+        T1 = min(355., max(285., T0 + dT))
+        f1 = dict(base)
+        if rng.random() < 0.5:
+            k = rng.choice(list(f1)); f1[k] = f1[k] * rng.choice([0.5, 2.])
+        cases.append({'kind': 'real', 'chems': chems, 'method': 'differential evolution', 'top': rng.choice([None, chems[1]]),
+                      'calls': [[T0, base], [T1, f1]], 'scale': rng.choice([1e-3, 8., 1e3])})
+    cases.append({'kind': 'sle_hist_real', 'chems': ['Water', 'Tetradecanol', 'Octanol'],
+                  'steps': [{'l': {'Tetradecanol': 5.}, 's': {}, 'solute': 'Tetradecanol', 'T': 300.},
+                            {'l': {'Water': 10., 'Octanol': 2., 'Tetradecanol': 5.}, 's': {}, 'solute': 'Tetradecanol', 'T': 305.}]})
+    cases.append({'kind': 'sle_real', 'chems': ['Water', 'Tetradecanol'], 'l': {'Water': 10., 'Tetradecanol': 5.}, 's': {}, 'solute': 'Tetradecanol', 'T': 300.})
+    cases.append({'kind': 'sle_real', 'chems': ['Water', 'Tetradecanol'], 'l': {'Tetradecanol': 5.}, 's': {}, 'solute': 'Tetradecanol', 'T': 320.})
+    cases.append({'kind': 'sle_real', 'chems': ['Water', 'Tetradecanol'], 'l': {}, 's': {'Tetradecanol': 5.}, 'solute': 'Tetradecanol', 'T': 300.})
+    return cases
